@@ -262,7 +262,7 @@ def corpus_mods():
 
 def run(tier, seed):
     R = C.Report(CID, tier, seed)
-    n = 160 if tier == 'quick' else 8000
+    n = 160 if tier == 'quick' else 3000
     mismatches = []
 
     # 0. regenerate Gen/C02Shipped.v from the shipped modules (translator-style tie of the Examples)
